@@ -3,6 +3,7 @@ package rules
 import (
 	"fmt"
 	"go/types"
+	"strings"
 
 	"golang.org/x/tools/go/ssa"
 
@@ -254,6 +255,20 @@ func c03Dependents(c *core.Ctx, r *core.Report) {
 		}
 		r.Fail("C03.R8", cons, c.Pos(st.Instr.Pos()), "Meta.Dependent is written outside dependOn: the stale-version check could miss a holder")
 	}
+	// by interpretation, whatever the recorder and the reader are split into: a holder is recorded at its first sight
+	// and only then, and the reader lists every recorded holder
+	tableDecided := false
+	if dependOn != nil && getDeps != nil {
+		if got, und := dependentsTable(c, dependOn, getDeps); und == "" {
+			tableDecided = true
+			want := `"name:h1" "name:h2" "name:h3"`
+			r.Check(got == want, "C03.R8", "dependOn-conditions", c.FnPos(dependOn), "recording h1, h1, h2, h3, h2 and reading the dependents back gives each holder once, in first-sight order (got ["+got+"])")
+			r.Check(got == want, "C03.R8", "GetDependents-reads-all", c.FnPos(getDeps), "GetDependents lists every recorded holder (got ["+got+"])")
+		}
+	}
+	if tableDecided {
+		return
+	}
 	// dependOn reaches every first sight: the append is conditional only on a failed LoadOrStore ("loaded" false)
 	if dependOn != nil {
 		for _, st := range stores {
@@ -319,4 +334,79 @@ func implementsIface(sub *types.Named, T types.Type) bool {
 		return false
 	}
 	return types.Implements(sub, ti)
+}
+
+// dependentsTable interprets the recorder on the holders h1, h1, h2, h3, h2 for one definition and then the reader;
+// the answer is the reader's result as text.
+func dependentsTable(c *core.Ctx, dependOn, getDeps *ssa.Function) (string, string) {
+	meta := c.Named("component_definition", "Meta")
+	idM, nameM := c.DeclaredMethod(meta, "ID"), c.DeclaredMethod(meta, "Name")
+	if idM == nil || nameM == nil {
+		return "", "Meta.ID / Meta.Name not found"
+	}
+	t := newTbl(c)
+	label := func(prefix string) func(ip *absint.Interp, a []absint.Value) absint.Value {
+		return func(ip *absint.Interp, a []absint.Value) absint.Value {
+			if tok, ok := a[0].(*absint.Tok); ok {
+				return absint.Str(prefix + tok.ID)
+			}
+			panic(&absint.Undecided{Msg: "ID / Name of something that is not a definition of the table"})
+		}
+	}
+	t.callee[idM], t.callee[nameM] = label("id:"), label("name:")
+	ip := absint.New(t)
+	ip.IsLog, ip.InScope = core.IsLogCall, c.InScope
+	m := absint.NewTok("meta", "meta")
+	m.Fields["Dependent"] = &absint.List{IsNil: true}
+	hs := map[string]*absint.Tok{"h1": absint.NewTok("h1", "meta"), "h2": absint.NewTok("h2", "meta"), "h3": absint.NewTok("h3", "meta")}
+	for _, h := range []string{"h1", "h1", "h2", "h3", "h2"} {
+		args := layoutArgsOrdered(dependOn, meta, m, hs[h])
+		if args == nil {
+			return "", "the recorder does not take two definitions"
+		}
+		if o := ip.Run(dependOn, args, nil); o.Undecided != nil {
+			return "", o.Undecided.Msg
+		} else if o.Panic != nil {
+			return "PANIC " + o.Panic.Msg, ""
+		}
+	}
+	o := ip.Run(getDeps, []absint.Value{m}, nil)
+	if o.Undecided != nil {
+		return "", o.Undecided.Msg
+	}
+	if o.Panic != nil || len(o.Ret) != 1 {
+		return "PANIC/shape " + showOutcome(o), ""
+	}
+	l, ok := o.Ret[0].(*absint.List)
+	if !ok {
+		return absint.Show(o.Ret[0]), ""
+	}
+	var parts []string
+	for _, e := range l.Elems {
+		parts = append(parts, absint.Show(e))
+	}
+	return strings.Join(parts, " "), ""
+}
+
+// layoutArgsOrdered: the two definitions along fn's parameters of type *T, in order (receiver first); nil if fn does not
+// take exactly two.
+func layoutArgsOrdered(fn *ssa.Function, T *types.Named, first, second absint.Value) []absint.Value {
+	var args []absint.Value
+	n := 0
+	for _, p := range fn.Params {
+		if core.NamedOf(p.Type()) == T {
+			n++
+			if n == 1 {
+				args = append(args, first)
+			} else {
+				args = append(args, second)
+			}
+		} else {
+			args = append(args, absint.NewTok("arg:"+p.Name(), "arg"))
+		}
+	}
+	if n != 2 {
+		return nil
+	}
+	return args
 }
